@@ -553,7 +553,10 @@ type cliCmd struct {
 }
 
 var c14Locators = []string{"^100", "10..40", "CDS", "gene", "complement(20..50)", "CDS@^-5..$+5", "@^..^10", "$-20..$", "gene/gene=A"}
-var c14Formats = []string{"", "fasta", "genbank", "embl"}
+
+// unusual spellings too: a name gts does not know is "no -F" for the writer AND for the key (seeded
+// change W22-1: unknown names became an error behind the cache look-up)
+var c14Formats = []string{"", "fasta", "genbank", "embl", "FASTA", "gbk", "fa"}
 
 func fmtOpt() cliOpt { return cliOpt{"format", "F", "val", "format", c14Formats} }
 
